@@ -100,9 +100,9 @@ def make_file(rng, kind_, path):
         if kind_ == "v11-xml":
             text = emit.xml_from_model(spec)
         elif kind_ == "v11-json":
-            text = json.dumps(emit.dict_from_model(spec), indent=1)
+            text = json.dumps(emit.dict_from_model(spec, rng), indent=1)
         else:
-            text = yaml.safe_dump(emit.dict_from_model(spec), allow_unicode=True)
+            text = yaml.safe_dump(emit.dict_from_model(spec, rng), allow_unicode=True)
     elif kind_ in ("empty", "empty-json", "empty-yaml"):
         text = ""
     elif kind_ == "text-json":
